@@ -276,7 +276,7 @@ def run_unit(unit, tier, seed):
     res['iso_notes'] = []
 
     def _labels_of(f):
-        return sorted(set(x for x in f['label'].split(',')) | set(l for n in range(f['gen_first'], f['gen_last'] + 1) for l in labels.get(n, [])))
+        return sorted(set(x for x in f['label'].split(',')) | set(f.get('obls', [])) | set(l for n in range(f['gen_first'], f['gen_last'] + 1) for l in labels.get(n, [])))
 
     # functions the extractor already had to emit as stubs (lost anchor inside the body, rewrite rule no longer applicable)
     for f in fnmap:
